@@ -79,6 +79,8 @@ Cases == { MkCase(t, 3, p, fl, pat) : t \in Types, p \in Perms(3), fl \in [1..4 
          \cup { MkCase(t, 2, p, fl, 2) : t \in Types, p \in Perms(2), fl \in [1..3 -> {0, 2, 16}] }
          \cup { MkCase(t, 1, p, fl, 1) : t \in Types, p \in Perms(1), fl \in [1..2 -> {0, 6}] }
          \cup (IF Thorough THEN { MkCase(t, 4, p, fl, 2) : t \in {3, 18, 31}, p \in Perms(4), fl \in [1..5 -> {0, 6}] } ELSE {})
+         \* one LONG filler (longer than any buffer a reader might skip through) at every position
+         \cup UNION { { MkCase(t, 3, p, [i \in 1..4 |-> IF i = j THEN 700 ELSE 0], 1) : p \in Perms(3), j \in 1..4 } : t \in {1, 13, 28, 31} }
          \* equal-size records: every permutation of 4 (and of 3), no filler or one filler of a record's size
          \cup UNION { { MkCaseOf(t, 4, p, fl, 0, TRUE) : p \in Perms(4), fl \in OneBig(4, t) } : t \in Types }
          \cup UNION { { MkCaseOf(t, 3, p, fl, 1, TRUE) : p \in Perms(3), fl \in OneBig(3, t) } : t \in Types }
